@@ -24,6 +24,10 @@ def reps_expansion(n_samples):
         reps = [env.choice(f"reps{k}", [1, 2, 3]) for k in range(n_samples)]
         reg = env.sym_matrix("R", n)
         pd, pa = make_pulser_data(env, n, None, reg, 0.0, [], 0.0)
+        if env.boolean("lindblad_noise"):
+            # emu-mps unravels Lindblad noise into Monte-Carlo trajectories: repetitions are NOT redundant
+            pd.lindblad_ops = [T.tensor([[0.0, 0.5], [0.0, 0.0]], dtype=T.complex128)]
+            pd.has_lindblad_noise = True
         samples = []
         for k in range(n_samples):
             bad = {"q0": bool(k % 2), "q1": False}
